@@ -215,6 +215,43 @@ def c11_jobs(Job, tier):
     return []
 
 
+# ---- C19 supporting static fact: no assert() outside the functions verified in both configurations has an argument that can
+# change state.  Syntactic scan of every assert( in basic/ and dfs/ (tests excluded): no assignment operator, no ++/--, and
+# only calls of the accessors listed here (all const / pure by inspection of the pinned tree).  Anything else makes C19
+# undecided (exit 2) for the run -- unless it is caught as a violation by a both-configuration job, which takes precedence.
+ASSERT_PURE_CALLS = {"Track::reverse_bit_order", "catalogs.size", "crc.get", "crc3.get", "dest_dir.back", "disc_format", "entries.size", "entry.file_length",
+                     "fs_.get", "full_wildcard.size", "got.size", "h.first.size", "int>::max", "is_drive_connected", "it->second->drive", "loc.start_sector",
+                     "name.empty", "raw_data.size", "rx.valid", "sector_count_type>::max", "sectors_per_track.has_value", "size", "sizeof", "std::is_sorted",
+                     "strlen", "track_sectors.begin", "track_sectors.end"}
+
+
+def assert_purity_precheck(repo):
+    import glob, re
+    files = [f for pat in ("basic/*.c", "basic/*.h", "dfs/*.cc", "dfs/*.h") for f in glob.glob(os.path.join(repo, pat)) if not os.path.basename(f).startswith("test")]
+    bad = []
+    for f in sorted(files):
+        t = open(f, errors="replace").read()
+        for m in re.finditer(r"(?<![\w_])assert\s*\(", t):
+            i, d = m.end(), 1
+            while d and i < len(t):
+                d += (t[i] == "(") - (t[i] == ")")
+                i += 1
+            arg = t[m.end():i - 1]
+            why = []
+            if re.search(r"(?<![=!<>])=(?!=)", arg):
+                why.append("assignment")
+            if re.search(r"\+\+|--", arg):
+                why.append("++/--")
+            for c in re.findall(r"([A-Za-z_][\w:.>-]*)\s*\(", arg):
+                if c not in ASSERT_PURE_CALLS:
+                    why.append("call of " + c)
+            if why:
+                bad.append("%s:%d (%s)" % (os.path.relpath(f, repo), t.count("\n", 0, m.start()) + 1, ", ".join(why)))
+    if bad:
+        return "assert() with an argument that may change state (not on the list of pure accessors): %s" % "; ".join(bad[:8])
+    return None
+
+
 def c19_jobs(Job, tier):
     js = []
     for cfg in (CFG_NDEBUG, CFG_ASSERT):
@@ -222,6 +259,7 @@ def c19_jobs(Job, tier):
         js.append(sector_count_job(Job, cfg))
         js.append(visit_job(Job, cfg))
         js += colstream_jobs(Job, cfg) + hfegeom_jobs(Job, cfg) + [j for j in space_jobs(Job, cfg) if "add_initial_gap" in j.name]
+        js += [j for j in hfelut_jobs(Job, cfg) if "decode_header" in j.name]
         if cfg is CFG_ASSERT:
             # every other extracted function that contains an assert(): the same contracts, assertions compiled in
             js += [j for j in fileio_jobs(Job, cfg) if "presented_blockwise" in j.name or "blockwise" in j.name]
@@ -230,6 +268,7 @@ def c19_jobs(Job, tier):
             js += [j for j in crc_jobs(Job, cfg) if j.tier == "quick"]
             js += [j for j in destdir_jobs(Job, cfg) if "make_name" in j.name]
             js += [j for j in mfm_decoder_jobs(Job, cfg) if "mfm_read_byte" in j.name] + [j for j in bitstream_jobs(Job, cfg) if "mfm_read_byte" in j.name]
+    js[0].precheck = assert_purity_precheck
     return js
 
 
@@ -252,7 +291,8 @@ def sdf_jobs(Job, cfg=CFG_NDEBUG, tier="quick"):
 
 
 def c04_extra(Job, tier):
-    return mmb_jobs(Job) + sdf_jobs(Job) + dump_jobs(Job) + viewfile_jobs(Job) + hints_jobs(Job)
+    # the geometry a container is attached with comes from probe_geometry: the sector count it starts from and its three decisions
+    return mmb_jobs(Job) + sdf_jobs(Job) + dump_jobs(Job) + viewfile_jobs(Job) + hints_jobs(Job) + [j for j in ident_jobs(Job) if "sector_count" in j.name] + geometry_jobs(Job)
 
 
 # ---- C16 extra: connect_drives ---------------------------------------------------------------------------------
@@ -302,7 +342,7 @@ def listtype_jobs(Job, cfg=CFG_NDEBUG, tier="quick"):
 
 
 def c01_extra(Job, tier):
-    return render_jobs(Job) + listtype_jobs(Job)
+    return render_jobs(Job) + listtype_jobs(Job) + [j for j in names_jobs(Job) if "has_name" in j.name]
 
 
 # ---- C02 extra: the info line ------------------------------------------------------------------------------------
@@ -537,7 +577,7 @@ def geometry_jobs(Job, cfg=CFG_NDEBUG, tier="quick"):
 
 
 def c13_extra(Job, tier):
-    return geometry_jobs(Job) + [j for j in fragment_jobs(Job) if "valid_" in j.name] + [j for j in opus_jobs(Job) if "extents" in j.name or "opus_ctor_head" in j.name or "opus_volume_table" in j.name]
+    return geometry_jobs(Job) + [j for j in fragment_jobs(Job) if "valid_" in j.name] + opussmell_jobs(Job) + [j for j in opus_jobs(Job) if "extents" in j.name or "opus_ctor_head" in j.name or "opus_volume_table" in j.name]
 
 
 def hints_jobs(Job, cfg=CFG_NDEBUG, tier="quick"):
@@ -628,6 +668,11 @@ def mainopt_jobs(Job, cfg=CFG_NDEBUG, tier="quick"):
             # a constant table of ten entries: unwinding its scan is complete, not a bounded stand-in
             Job("D_dfs_opt_table_%s" % cfg[0], "harness/dfs_mainopt.c", "h_opt_table", enforce=[], defines=list(cfg[1]), extract=ext(g), tier=tier,
                 cbmc=["--unwindset", "table_find_.0:17,str_eq_.0:17", "--unwinding-assertions"])]
+
+
+def opussmell_jobs(Job, cfg=CFG_NDEBUG, tier="quick"):
+    return [Job("D_smells_like_opus_ddos_%s" % cfg[0], "harness/dfs_opussmell.c", "h_opus_smell", enforce=["smells_like_opus_ddos"], replace=["sector_count"], loops=True,
+                defines=list(cfg[1]), extract=ext(["sector_count", "smells_like_opus_ddos"]), tier=tier, cover=True)]
 
 
 def prefix_jobs(Job, cfg=CFG_NDEBUG, tier="quick"):
